@@ -105,6 +105,67 @@ def member_text_job():
     return {"prog": prog, "ops": ops}
 
 
+# ---- fixed tuples with an OPEN member (Any, object, a free TypeVar, a Callable, type[X]): the arity is still part of the type
+OPEN_TUPLES = ["tuple[int, typing.Any]", "tuple[str, int, object]", "tuple[int, T]", "tuple[int, typing.Callable[[int], str]]",
+               "tuple[int, type[int]]", "tuple[typing.Any, int]", "typing.Tuple[int, typing.Any]", "list[tuple[int, typing.Any]]",
+               "dict[str, tuple[str, object]]", "typing.Optional[tuple[int, typing.Any]]", "tuple[int, str]"]
+OPEN_INPUTS = ["['1', '2', '3']", "['1']", "'[1, 2, 3, 4]'", "[]", "{'a': 1, 'b': 2}", "['1', '2']", "(1,)", "[['1', '2'], ['3'], ['4', '5', '6']]",
+               "{'k': ['a']}", "{'k': ['a', 'b', 'c']}", "None", "'ab'"]
+
+
+def _open_child(ann):
+    import warnings
+    warnings.simplefilter("ignore")
+    import typing
+    import collections.abc
+    import typelib
+    ns = {"typing": typing, "T": typing.TypeVar("T")}
+    t = eval(ann, ns)
+
+    def conf(a, x):
+        if a is typing.Any or a is object or isinstance(a, typing.TypeVar):
+            return True
+        og, ar = typing.get_origin(a), typing.get_args(a)
+        if og is collections.abc.Callable or og is type:
+            return True
+        if og is typing.Union:
+            return any(conf(m, x) for m in ar)
+        if a is type(None):
+            return x is None
+        if og is tuple:
+            return type(x) is tuple and len(x) == len(ar) and all(conf(m, e) for m, e in zip(ar, x))
+        if og is list:
+            return type(x) is list and all(conf(ar[0], e) for e in x)
+        if og is dict:
+            return type(x) is dict and all(conf(ar[0], k) and conf(ar[1], v) for k, v in x.items())
+        return type(x) is a
+    out = []
+    for src in OPEN_INPUTS:
+        x = eval(src)
+        try:
+            r = typelib.unmarshal(t, x)
+        except Exception:  # noqa: BLE001
+            out.append([src, "raised", True])
+            continue
+        out.append([src, repr(r)[:120], bool(conf(t, r))])
+    return out
+
+
+def open_tuple_probe(res):
+    from .. import iso
+    outs = iso.map_isolated(_open_child, OPEN_TUPLES, timeout=60.0)
+    for ann, o in zip(OPEN_TUPLES, outs):
+        if not isinstance(o, list):
+            raise RuntimeError(f"harness: open-tuple probe failed: {ann}: {o}")
+        for src, got, ok in o:
+            res.case({"ann": ann, "val": src, "family": "open-tuple"}, True)
+            if ok:
+                res.count("oracle:open-tuple:" + ("rejected" if got == "raised" else "conforms"))
+            else:
+                res.failures.append({"what": f"unmarshal({ann}, {src}) returned {got}: not a value of the target type (arity / member classes)",
+                                     "input": {"open_tuple": [ann, src]}})
+
+
 def explore(ctx):
     res = Result()
     res.rule = RULE
@@ -163,6 +224,7 @@ def explore(ctx):
             else:
                 res.count("oracle:raised:" + r_["err"])
     text_descent_probe(res)
+    open_tuple_probe(res)
     return res
 
 
@@ -181,6 +243,12 @@ def _witness_rest(fid):
 
 def replay(failure):
     inp = failure["input"]
+    if "open_tuple" in inp:
+        from .. import iso
+        o = iso.map_isolated(_open_child, [inp["open_tuple"][0]], timeout=60.0)[0]
+        bad = [x for x in o if not x[2]] if isinstance(o, list) else o
+        print(json.dumps({"annotation": inp["open_tuple"][0], "non-conforming results": bad}, indent=1))
+        return bool(bad)
     job = {"prog": inp["prog"], "ops": [{"op": "um", "ty": inp["ty"], "val": inp["val"], "obs": ["conforms"]}]}
     real, model = core.run_jobs([job])
     print(json.dumps({"annotation": inp["ann"], "input": inp["val"], "real": real[0][0], "model": model[0][0]}, indent=1)[:3000])
